@@ -4,9 +4,10 @@
    the real code (its own statement comments) the machine state must abstract to the instrumented
    configuration: allocator registers, the pointers of all non-integer variables, header and pointer
    slots of every block below the abstract frontier (Sem/X86HeapLock.v).  A mismatch is a VIOL of
-   class heap-lockstep. *)
+   class heap-lockstep.  Programs that are not linearity-checked (`lin_check_prog`, the hypothesis of the
+   program-level theorems) are skipped. *)
 From Coq Require Import List ZArith NArith String Bool.
-From SCC Require Import Base.Sexp Lang.AxSyn Sem.AxSem Sem.AxHeap Sem.X86Sem Sem.X86HeapLock Model.Backend Model.X86 Model.X86Io Model.RunBase Model.RunX86.
+From SCC Require Import Base.Sexp Lang.AxSyn Sem.AxSem Model.LinCheck Sem.AxHeap Sem.X86Sem Sem.X86HeapLock Model.Backend Model.X86 Model.X86Io Model.RunBase Model.RunX86.
 From SCC Require Model.Heap.
 Import ListNotations.
 Open Scope string_scope.
@@ -39,6 +40,8 @@ Definition heaplock_x86_case (i r : sexp) : verdict :=
               | Some cs_s =>
                   if negb (match pdefs p with d :: _ => forallb (fun b => match bchi b with Ext => true | _ => false end) (dctx d) | [] => false end)
                   then VSkip "first definition is not an entry point (non-integer parameters)"
+                  else if negb (lin_check_prog p)
+                  then VSkip ("not linearity-checked in " ++ first_bad_def p ++ ": outside the domain of C09_program_heap_safe (typing of stage outputs is C05/C12)")
                   else
                     let results := map (lock_one p cs_s) argss in
                     match find (fun x => match x with Some (Some _, _, _) => true | _ => false end) results with
